@@ -214,9 +214,28 @@ func (e *Engine) initExt2() {
 		posMods(e, c, m)
 		objComps(m, c.Args[0].Type())
 	}
-	e.reg("github.com/spdx/tools-golang/json.Read", "spdxjson.Read(r): returns an arbitrary *spdx.Document (non-nil when err == nil; every pointer inside may be nil, slices any length, pointer elements may be nil), consumes the stream", func(f *Frame, st *State, c *ssa.CallCommon, args []Val, rt types.Type, pos token.Pos) Val {
+	e.reg("github.com/spdx/tools-golang/json.Read", "spdxjson.Read(r): returns an arbitrary *spdx.Document (non-nil when err == nil; every pointer inside may be nil, slices any length, pointer elements may be nil - except Packages and Relationships, whose entries the library itself dereferences / filters in Document.UnmarshalJSON), consumes the stream. NOTE: the library panics on packages:[null]; its totality is assumed, not checked", func(f *Frame, st *State, c *ssa.CallCommon, args []Val, rt types.Type, pos token.Pos) Val {
 		consume(f, st, streamRef(args[0]))
-		return valueOrError(f, st, rt, "spdxdoc")
+		v := valueOrError(f, st, rt, "spdxdoc")
+		vc := f.vc
+		doc := Val{T: resultTypes(rt)[0], L: v.L[:1]}
+		if pt, ok := doc.T.Underlying().(*types.Pointer); ok {
+			if stt, ok := pt.Elem().Underlying().(*types.Struct); ok {
+				for i := 0; i < stt.NumFields(); i++ {
+					fld := stt.Field(i)
+					if fld.Name() != "Packages" && fld.Name() != "Relationships" {
+						continue
+					}
+					loc := objLoc(doc.T, doc.one())
+					sv := vc.load(st, &Loc{Kind: LObj, Base: loc.Base, Root: loc.Root, Path: "." + fld.Name(), T: fld.Type()})
+					el := elemOf(fld.Type())
+					row := Select(vc.get(st, vc.elemComps(el)[0]), sv.arr())
+					j := Term{"j!q", SInt}
+					vc.fact(Imp(st.reach, Forall([]Term{j}, Imp(And(Le(Zero, j), Lt(j, sv.len())), Ne(Select(row, j), Zero)), []Term{Select(row, j)})))
+				}
+			}
+		}
+		return v
 	}).mods = posMods
 	e.reg("(*bufio.Scanner).Split", "Scanner.Split: configuration only", func(f *Frame, st *State, c *ssa.CallCommon, args []Val, rt types.Type, pos token.Pos) Val {
 		return Val{T: rt}
